@@ -7,7 +7,7 @@ import sys
 
 prop, which, name, caught = sys.argv[1:5]
 needs = " ".join(sys.argv[5:])
-src = "/tmp/agents/%s/out" % prop
+src = "/tmp/agents/%s%s/out" % (os.environ.get("PREFIX", ""), prop)
 dst = "/verif/seeded/%s" % name
 os.makedirs(dst, exist_ok=True)
 shutil.copy(os.path.join(src, "patch%s.diff" % which), os.path.join(dst, "patch.diff"))
